@@ -6,6 +6,7 @@ after the loop); run_interpreter stages the function and evaluates the staged ja
 chain(jaxpr.literals, flat_args) with num_consts = len(jaxpr.literals) and _impl splits at params["num_consts"] and evaluates the staged jaxpr - writer/reader
 agreement); Environment returns literal values unchanged and never overwrites a DropVar.  Not decided: JAX staging itself.
 """
+import ast
 from ..interp import check_loop
 from ..program import AnalysisError
 from ..rules import is_call, is_mcall, mentions
@@ -80,7 +81,11 @@ def isp(chk, prog):
         chk.require(okr, "ISP-CONSTS", "initial_style_bind/result", "outputs unflattened with out_tree()", derived=show(r.ret)[:120], expected="tree_unflatten(out_tree(), outs)", where=where)
     else:
         chk.violation("ISP-CONSTS", "initial_style_bind/bind", "prim.bind call", derived=f"{len(binds)} bind calls", expected="one", where=where)
-    ri = Evaluator(prog).eval_fn(impl, m, env0={"jaxpr": P("$jaxpr")})
+    # the staged jaxpr is a free variable of _impl (bound in the enclosing function): found by role, not by name
+    _params = {a.arg for a in impl.args.args} | ({impl.args.vararg.arg} if impl.args.vararg else set()) | ({impl.args.kwarg.arg} if impl.args.kwarg else set())
+    _stored = {n.id for n in ast.walk(impl) if isinstance(n, ast.Name) and isinstance(n.ctx, ast.Store)}
+    _free = {n.id for n in ast.walk(impl) if isinstance(n, ast.Name) and isinstance(n.ctx, ast.Load)} - _params - _stored - set(m.imports) - set(m.funcs) - set(m.assigns) - set(dir(__builtins__) if not isinstance(__builtins__, dict) else __builtins__)
+    ri = Evaluator(prog).eval_fn(impl, m, env0={n_: P("$jaxpr") for n_ in _free})
     sp = ("call", G("jax.util.split_list"), (P("args"), ("list", (("index", P("params"), C("num_consts")),))), ())
     want = ("call", G("jax.core.eval_jaxpr"), (("attr", P("$jaxpr"), "jaxpr"), mk_proj(sp, 0), ("star", mk_proj(sp, 1))), ())
     chk.require(ri.ret == want, "ISP-CONSTS", "initial_style_bind/_impl", "split at params['num_consts'] (reader agrees with the writer) and evaluate the staged jaxpr", derived=show(ri.ret)[:240], expected=show(want)[:240], where=f"{m.rel}:{impl.lineno}")
